@@ -55,6 +55,10 @@ type input struct {
 	Auth    [2]int64   `json:"auth"`
 	Rel     bool       `json:"rel,omitempty"`
 	Mis     int64      `json:"mis,omitempty"`
+	// Prime (admission only): the PreExecutor is not fresh. It admitted another transaction 25 ms before a second
+	// boundary B; the measured call is made just after B with expiry B (E = 0: expired by now, not yet expired at the
+	// time of the earlier call) or B + W (E = 1: acceptable now, too far ahead at the time of the earlier call).
+	Prime bool `json:"prime,omitempty"`
 }
 
 type mirror struct {
@@ -167,10 +171,30 @@ func run(in input) emit.Case {
 	case kindAdmit:
 		rf := &genesis.ImmutableRuleFactory{Rules: rulesOf(in)}
 		pe := chain.NewPreExecutor(rf, &validitywindowtest.MockTimeValidityWindow[*chain.Transaction]{}, mdm, bh)
+		var boundary int64
+		if in.Prime {
+			now := time.Now().UnixMilli()
+			boundary = (now/1000 + 1) * 1000
+			if boundary-now < 60 {
+				boundary += 1000
+			}
+			time.Sleep(time.Duration(boundary-25-now) * time.Millisecond)
+			none := make([][2]int64, len(in.Actions))
+			for i := range none {
+				none[i] = [2]int64{-1, -1}
+			}
+			_ = pe.PreExecute(ctx, nil, storage, buildTx(in, boundary+10000, none, [2]int64{-1, -1}))
+			if d := boundary + 3 - time.Now().UnixMilli(); d > 0 {
+				time.Sleep(time.Duration(d) * time.Millisecond)
+			}
+		}
 		t = time.Now().UnixMilli()
 		if in.Rel {
 			e = t + in.E
 			e = e - e%1000 + in.Mis
+			if in.Prime {
+				e = boundary + in.E*in.W
+			}
 			acts = make([][2]int64, len(in.Actions))
 			for i, a := range in.Actions {
 				acts[i] = [2]int64{relAbs(t, a[0]), relAbs(t, a[1])}
@@ -467,5 +491,16 @@ func TestDriver(t *testing.T) {
 	}
 	for i := 0; i < env.N; i++ {
 		_ = w.Put(run(gen(r)))
+	}
+	// admission through a PreExecutor that has been used before, across a second boundary (about one second each)
+	nPrime := 4
+	if env.Tier == "thorough" {
+		nPrime = 20
+	}
+	for i := 0; i < nPrime; i++ {
+		in := genAdmit(r)
+		in.ChainTx = append([]byte{}, in.ChainR...)
+		in.Prime, in.Mis, in.E = true, 0, int64(i%2)
+		_ = w.Put(run(in))
 	}
 }
